@@ -2,7 +2,7 @@
    Models: C16/Model.v (on C08/Model.v); generated decisions and tables: C16/Gen.v, C08/Gen.v. *)
 From Coq Require Import ZArith.
 From Wz Require Import lib.Bytes C08.LibStr C08.Gen C08.Model C08.Spec C08.Proofs
-  C16.Base C16.Gen C16.Model C16.ProofsCodec C16.Proofs C16.ProofsCSP.
+  C16.Base C16.Gen C16.Model C16.ProofsCodec C16.Proofs C16.ProofsCSP C16.ProofsCR C16.ProofsWA.
 Open Scope N_scope.
 
 (* ---------------------------------------------------------------- the codecs the views are written and read with *)
@@ -145,3 +145,66 @@ Theorem C16_coherent_csp_step : forall h d o,
    (snd (csp_step d o) = false -> fst (cspr_step (h, d) o) = (h, d))).
 Proof. exact csp_step_coherent. Qed.
 Print Assumptions C16_coherent_csp_step.
+
+(* ---------------------------------------------------------------- content_range *)
+(* Content-Range codec on its domain: units non-empty without white space, a range is_byte_range_valid accepts *)
+Theorem C16_content_range_roundtrip : forall c u,
+  cr_dom c -> cr_units c = Some u ->
+  exists text, cr_to_header c = Ok text /\ parse_content_range (Some text) = Some c.
+Proof. exact cr_roundtrip. Qed.
+Print Assumptions C16_content_range_roundtrip.
+
+(* set / unset / attribute assignment leaving a valid range: the header is the serialisation of the view (absent
+   when units is None) and re-reading the property gives an equal view *)
+Theorem C16_coherent_content_range_step : forall h c o c',
+  cr_apply c o = Some c' -> cr_dom c' ->
+  let st' := fst (crr_step (h, c) o) in
+  snd st' = c' /\ cr_serial st' /\ (cr_units c' <> None -> snd (cr_read (fst st')) = c').
+Proof. exact cr_step_coherent. Qed.
+Print Assumptions C16_coherent_content_range_step.
+
+Example C16_content_range_example :
+  let c := {| cr_units := Some [98; 121; 116; 101; 115]; cr_start := Some 0%Z; cr_stop := Some 10%Z; cr_length := Some 100%Z |} in
+  cr_dom c /\ cr_to_header c = Ok [98; 121; 116; 101; 115; 32; 48; 45; 57; 47; 49; 48; 48].
+Proof. split; [split; reflexivity|reflexivity]. Qed.
+Print Assumptions C16_content_range_example.
+
+(* ---------------------------------------------------------------- www_authenticate *)
+(* type, token and parameters are routed to their setters (regenerated table), and each setter changes exactly
+   its own field and notifies *)
+Theorem C16_www_authenticate_routing :
+  forallb (fun n => smem n wa_direct_attrs)
+    [[116; 121; 112; 101]; [116; 111; 107; 101; 110]; [112; 97; 114; 97; 109; 101; 116; 101; 114; 115]] = true.
+Proof. exact wa_routing. Qed.
+Print Assumptions C16_www_authenticate_routing.
+
+Theorem C16_www_authenticate_setters : forall w,
+  (forall t, wa_step w (WASetToken t) = ({| wa_type := wa_type w; wa_params := wa_params w; wa_token := t |}, Ok ONone, true)) /\
+  (forall s, wa_step w (WASetType s) = ({| wa_type := s; wa_params := wa_params w; wa_token := wa_token w |}, Ok ONone, true)) /\
+  (forall d, wa_step w (WASetParams d) = ({| wa_type := wa_type w; wa_params := d; wa_token := wa_token w |}, Ok ONone, true)).
+Proof. exact wa_setters. Qed.
+Print Assumptions C16_www_authenticate_setters.
+
+(* every notifying operation leaves the header equal to the serialisation of the view *)
+Theorem C16_www_authenticate_serial : forall h w o,
+  snd (wa_step w o) = true -> has_newline (wa_to_header (fst (fst (wa_step w o)))) = false ->
+  hd_get_key (fst (fst (war_step (h, w) o))) WWW_AUTH = Some (wa_to_header (fst (fst (wa_step w o)))) /\
+  snd (fst (war_step (h, w) o)) = fst (fst (wa_step w o)).
+Proof. exact wa_step_serial. Qed.
+Print Assumptions C16_www_authenticate_serial.
+
+(* token schemes re-read equal: scheme in normal form (lower case), token without inner equals sign or
+   surrounding white space.  (Parameter schemes: covered by the correspondence and the harness oracle only.) *)
+Theorem C16_www_authenticate_token_roundtrip_partial : forall ty t,
+  ty_ok ty = true -> wtoken_ok t = true ->
+  wa_from_header (Some (wa_to_header {| wa_type := ty; wa_params := []; wa_token := Some t |}))
+  = Some (Some {| wa_type := ty; wa_params := []; wa_token := Some t |}).
+Proof. exact wa_token_roundtrip. Qed.
+Print Assumptions C16_www_authenticate_token_roundtrip_partial.
+
+Example C16_www_authenticate_example :
+  ty_ok [98; 101; 97; 114; 101; 114] = true /\ wtoken_ok [97; 98; 99; 61; 61] = true /\
+  wa_to_header {| wa_type := [98; 101; 97; 114; 101; 114]; wa_params := []; wa_token := Some [97; 98; 99; 61; 61] |}
+    = [66; 101; 97; 114; 101; 114; 32; 97; 98; 99; 61; 61].
+Proof. vm_compute. repeat split. Qed.
+Print Assumptions C16_www_authenticate_example.
